@@ -35,6 +35,12 @@ def sig(prop):
     def f(rj):
         sc = rj["trace"][0]["sc"]
         ev = rj["event"]
+        lim = sc["limit"]
+        if (prop == "C09" and lim > 0 and sc["side"] == "client" and ev.get("ev") == "done"
+                and (ev.get("code") in (3, 8) or (sc["shape"] == "unary" and ev.get("code") == 2))
+                and all(fr["len"] <= lim and fr["ilen"] <= lim for fr in sc["frames"] if fr["flag"] in (0, 1))
+                and any(fr["len"] > lim or fr["ilen"] > lim for fr in sc["frames"] if fr["flag"] not in (0, 1))):
+            return "C09|terminator-frame>N|client/%s" % sc["proto"]
         bodies = ".".join("%s%s" % (fr["body"], "c" if fr["flag"] % 2 else "") for fr in sc["frames"])
         partial = "cut" if sc["cut"] <= wirelen(sc) else "full"
         got = ""
@@ -68,7 +74,7 @@ def run_C03(ctx):
     for r in core.sample(ctx.rng, segs, 3000 if quick else 20000):
         scen += [dict(v, script=r["script"], eofwith=r["eofwith"]) for v in unary_variants(r["sc"])]
     # every complete body of the design check under adversarial + random segmentations
-    comp = [r for r in allsc if complete(r["sc"])]
+    comp = [r for r in allsc if complete(r["sc"]) and r["sc"]["limit"] == 0]
     for r in comp:
         n = wirelen(r["sc"]) + 8
         rnd = [[ctx.rng.randint(1, 4) for _ in range(n)] for _ in range(2 if quick else 8)]
@@ -91,6 +97,8 @@ def run_C04(ctx):
     allsc = core.generate(ctx, "Gen_Frames", "Gen_Frames_A.cfg", tag="genA")["scenarios"]
     scen = []
     for r in allsc:
+        if r["sc"]["limit"] > 0:
+            continue      # read limits are C09's subject
         scripts = [[], ONES] if quick else [[], ONES, SPLIT]
         for script in scripts:
             for ew in (False, True):
